@@ -161,6 +161,8 @@ func init() {
 const (
 	tokenADD = token.ADD
 	tokenEQL = token.EQL
+	tokenAND = token.AND
+	tokenOR  = token.OR
 )
 
 func extNop(fr *frame, args []value) value { return nil }
